@@ -44,7 +44,8 @@ func (c *c05Oracle) Check(w *World, o *Obs) []Violation {
 			return nil
 		}
 		accepted := ""
-		for pid, after := range o.RowsAfter {
+		for _, pid := range sortedRowKeys(o.RowsAfter) {
+			after := o.RowsAfter[pid]
 			before := o.RowsBefore[pid]
 			if before == nil {
 				continue
@@ -93,7 +94,8 @@ func (c *c05Oracle) Check(w *World, o *Obs) []Violation {
 			return nil
 		}
 		changed := ""
-		for pid, after := range o.RowsAfter {
+		for _, pid := range sortedRowKeys(o.RowsAfter) {
+			after := o.RowsAfter[pid]
 			if before := o.RowsBefore[pid]; before != nil && before.Password != after.Password {
 				changed = pid
 			}
